@@ -230,6 +230,9 @@ fn run_case(case: &Value, variation: u64, vbp: &Path, scratch: &Path) -> Vec<Pro
         LAST_OUTPUTS.with(|l| *l.borrow_mut() = Some(snap));
     }
     let mut problems = vec![];
+    if String::from_utf8_lossy(&output.stderr).contains("HARNESS:") {
+        problems.push(Problem { prop: "C06", sig: "HARNESS: decoy invocation".into(), detail: String::from_utf8_lossy(&output.stderr).lines().find(|l| l.contains("HARNESS:")).unwrap_or("").to_string() });
+    }
     if consulted.contains("t_variant") && c("t_variant") == "nonutf8" {
         // C06: a value that cannot be represented must be a reported error, never dropped
         if n_detect + n_build > 0 {
